@@ -126,12 +126,14 @@ claim('C15',
       COMMON_NOTE + 'SHA-256 collision resistance is assumed for the freshness conclusion.',
       'Coq proof (lines/strip_prefix lemmas; template shape by vm_compute) + differential', 'DESIGN.md §5 C15')
 claim('C16',
-      'Coq theorems, through the lexical specification (tokenize = lex 0 on every string): a whitespace character or a whole `//` comment in front '
-      'of any text produces no token and only moves what follows; a comment running to the end of the file produces nothing; the same text further '
-      'to the right gives the same tokens and the same lexical error with every byte position moved by that distance. So a re-layout changes the '
-      'token list only in its positions. Not proved: that the later stages use positions only inside error values; invariance of the whole result '
-      'is decided per pair (source, random re-layout) on the crate, modulo hash line / position map.',
-      COMMON_NOTE, 'Coq proof (lexical specification; gap and shift theorems) + metamorphic differential', 'DESIGN.md §5 C16')
+      'Coq theorems. Tokenizer level, through the lexical specification (tokenize = lex 0 on every string): a whitespace character or a whole '
+      '`//` comment in front of any text produces no token and only moves what follows; a comment running to the end of the file produces nothing; '
+      'the same text further right gives the same tokens and the same lexical error, shifted. Whole pipeline (PositionsProofs.v): two sources with '
+      'the same token contents, the first syntactically valid, give for the same digest the same emitted text byte for byte, or the same error up '
+      'to positions — the parser, cst_to_ast, validate_ast, the automaton, the table and the emitter each commute with erasing every stored '
+      'position. Not proved: the same for syntax errors and the exact position map of a shifted error; invariance of the whole result is also '
+      'decided per pair (source, random re-layout) on the crate, modulo hash line / position map.',
+      COMMON_NOTE, 'Coq proof (lexical specification: gap and shift theorems; position-erasure commutes with every later stage) + metamorphic differential', 'DESIGN.md §5 C16')
 claim('C17',
       'Coq theorems: for validated tables every non-error cell is demanded by an item and every demand/transition of an item is in the table; '
       'the same for the tables of every grammar the model of generate accepts, with the machine\'s own item sets as annotation (closed states, '
